@@ -227,16 +227,15 @@ _B64_VAL = {c: i for i, c in enumerate(_B64)}
 
 
 def b64_decode(data: bytes) -> bytes:
-    """RFC 2045 6.8: characters outside the alphabet are ignored; "=" pads the final quantum."""
+    """RFC 2045 6.8: characters outside the alphabet are ignored; "=" pads the final quantum and ends the data."""
     out = bytearray()
     acc = 0
     nbits = 0
     for c in data:
         v = _B64_VAL.get(c)
         if v is None:
-            if c == 0x3D:  # '=': the pending bits of an incomplete quantum are padding bits
-                acc = 0
-                nbits = 0
+            if c == 0x3D:  # '=' is only used as padding at the end of the data: the data ends here (6.8)
+                break
             continue
         acc = (acc << 6) | v
         nbits += 6
